@@ -29,6 +29,13 @@ CLAIMED = {
         "Trusts the SI-2019 constants typed into the harness and pint's unit algebra for the independent unit-scale cross-check.",
         "DESIGN.md section 6 C20",
     ),
+    "C19": (
+        "Hypothesis property-based testing against an independent re-implementation of the overlap/step rule and binary-search linear interpolation; differential test of the estimator's capture path",
+        "Generated tuples of 2-4 uniform/non-uniform/unsorted domains in every relation (nested, overlapping, touching, disjoint, identical, overlap shorter than a step), "
+        "arrays of rank 1-3 with the domain on any axis (square shapes included), stack/concatenate; both directions of the contract (accepted => correct, disjoint => rejected).",
+        "Trusts the harness's own interpolation and trapezoid; tolerance 1e-9 of the local magnitude; domains with gaps >= 1e-2.",
+        "DESIGN.md section 6 C19",
+    ),
 }
 
 PENDING_REASON = "check not built yet in this revision (planned, see DESIGN.md section 6); not claimed until its check runs quietly on the unchanged tree"
